@@ -65,7 +65,10 @@ def gen_case(seed, i, nvar):
     for v in range(4):
         c2 = gen.gen_cfg(rng)
         pvariants.append({"cfg": c2})
-    return {"i": i, "cfg": cfg, "world": world.to_json(), "roots": roots, "gflags": gflags, "variants": variants, "pvariants": pvariants}
+    return {"i": i, "cfg": cfg, "world": world.to_json(), "roots": roots, "gflags": gflags, "variants": variants, "pvariants": pvariants,
+            # one file (inode) that cannot be opened, in every run of the case: a failing file must cost itself only,
+            # whatever the pool sizes
+            "unreadable": rng.random() < 0.25}
 
 
 def gen_cases(tier, seed):
@@ -109,7 +112,19 @@ def run_case(case):
         for k in ("max_prefix_size", "max_suffix_size"):
             if cfg.get(k) is not None:
                 base_args += ["--" + k.replace("_", "-"), str(cfg[k])]
-        ref = ops.group(rd, roots, base_args + ["--threads", "1"], env=env, seed=1)
+        bad = []
+        if case.get("unreadable"):
+            files = sorted(e["p"] for e in case["world"]["entries"] if e["t"] == "f")
+            if files:
+                victim = os.lstat(ops.absw(rd, files[len(files) // 3])).st_ino
+                for e in case["world"]["entries"]:
+                    try:
+                        same = e["t"] in ("f", "h", "l") and os.stat(ops.absw(rd, e["p"])).st_ino == victim
+                    except OSError:
+                        same = False
+                    if same:
+                        bad.append(rule(kind="open", path=b2s(ops.absw(rd, e["p"])), act="errno:EACCES", count="inf"))
+        ref = ops.group(rd, roots, base_args + ["--threads", "1"], env=env, seed=1, plan=list(bad))
         traces = [ref.trace]
         inv = 1
 
@@ -128,7 +143,7 @@ def run_case(case):
                 for t in v["threads"]:
                     targs += ["--threads", t]
                 vroots = [roots[k] for k in v["perm"]]
-                plan = [rule(kind=k, act="delay:%d" % us, prefix=rd.world, count="inf") for k, us, _ in v["delays"]]
+                plan = list(bad) + [rule(kind=k, act="delay:%d" % us, prefix=rd.world, count="inf") for k, us, _ in v["delays"]]
                 if v["stdin"]:
                     res = ops.group(rd, [], base_args + targs + ["--stdin"], env=env, seed=v["seed"], plan=plan,
                                     stdin=b"\n".join(vroots) + b"\n") if all(b"\n" not in r for r in vroots) else None
@@ -153,7 +168,8 @@ def run_case(case):
             refpart = rep.pathsets()
             for pi, pv in enumerate(case["pvariants"]):
                 c2 = pv["cfg"]
-                res = ops.group(rd, roots, gen.cfg_args(c2) + case["gflags"] + ["-f", "json"], env=gen.cfg_env(c2), seed=7 + pi)
+                res = ops.group(rd, roots, gen.cfg_args(c2) + case["gflags"] + ["-f", "json"], env=gen.cfg_env(c2), seed=7 + pi,
+                                plan=list(bad))
                 inv += 1
                 if res.timed_out:
                     V("terminates", "configuration variant %d did not terminate" % pi)
